@@ -264,6 +264,11 @@ func (d *decoder) decode(vs ...interface{}) error {
 				return err
 			}
 
+			// never trust the claimed length beyond what the input can hold.
+			if lr, ok := d.rd.(interface{ Len() int }); ok && int64(ll) > int64(lr.Len()) {
+				return io.ErrUnexpectedEOF
+			}
+
 			if ll > 0 {
 				*v = make([]byte, int(ll))
 			}
